@@ -27,6 +27,28 @@ def write_replay(prop_id, payload):
     return os.path.relpath(path, common.VERIF)
 
 
+def guarded(ctx, fn):
+    """Run a check phase. An exception that escapes it from INSIDE the implementation (innermost frame in the suds
+    tree under test), at a call the check makes unguarded because it must succeed, is a failure of the property on
+    that call - not a harness error. Anything raised by the harness itself still ends the run with exit 2."""
+    import traceback
+    try:
+        fn(ctx)
+    except Exception as e:
+        frames = traceback.extract_tb(e.__traceback__)
+        suds_dir = os.path.join(os.path.realpath(common.REPO), "suds") + os.sep
+        inner = frames[-1] if frames else None
+        if inner is None or not os.path.realpath(inner.filename).startswith(suds_dir):
+            raise
+        site = [f for f in frames if not os.path.realpath(f.filename).startswith(suds_dir)][-1]
+        ctx.fail("the implementation raised at a call that must succeed",
+                 {"check_site": "%s:%d %s" % (os.path.relpath(site.filename, os.path.dirname(os.path.dirname(os.path.abspath(__file__)))), site.lineno, site.line),
+                  "raised_in": "%s:%d" % (os.path.relpath(inner.filename, common.REPO), inner.lineno)},
+                 "%s: %s" % (type(e).__name__, str(e)[:300]), "no exception",
+                 traceback="".join(traceback.format_exception(type(e), e, e.__traceback__))[-3000:])
+        ctx.notes.append("check phase %s stopped early: the implementation raised %s" % (fn.__name__, type(e).__name__))
+
+
 def main():
     ap = argparse.ArgumentParser()
     ap.add_argument("prop")
@@ -70,13 +92,13 @@ def main():
     ctx = common.Ctx(prop_id, args.tier, seed, drv, known)
     ctx.classifiers = getattr(mod, "CLASSIFIERS", {})
     ctx.lean = st
-    mod.run(ctx)
+    guarded(ctx, mod.run)
 
     # 3. widen the search when a proof obligation or the correspondence broke
     broken = st.broken() or bool(ctx.disagreements)
     if broken and not ctx.failures and hasattr(mod, "widen"):
         ctx.widened = True
-        mod.widen(ctx)
+        guarded(ctx, mod.widen)
 
     # known findings: re-run each listed witness
     kf_lines = []
